@@ -753,7 +753,8 @@ impl<'a, EntryType: Entry> PathSolution<'a, EntryType> {
 
                 hops.push(hopfield);
                 // Always include AS MTU in calculation
-                mtu = std::cmp::min(mtu, as_entry.mtu as u16);
+                // The AS MTU is a u32 on the control plane; saturate instead of truncating.
+                mtu = std::cmp::min(mtu, u16::try_from(as_entry.mtu).unwrap_or(u16::MAX));
             }
 
             // Put the hops in forwarding order. Needed when the path segment in the solution
